@@ -197,17 +197,24 @@ class Unroll(ast.NodeTransformer):
         self.generic_visit(n)
         it = n.iter
         # `for attr in _TABLE: if getattr(a, attr) != getattr(b, attr): return False` over a table of constants
-        if not n.orelse and isinstance(it, (ast.Name, ast.Attribute)) and isinstance(n.target, ast.Name):
+        is_items = isinstance(it, ast.Call) and isinstance(it.func, ast.Attribute) and it.func.attr in ('items', 'keys', 'values') \
+            and not it.args
+        if not n.orelse and (isinstance(it, (ast.Name, ast.Attribute)) or is_items) \
+                and (isinstance(n.target, ast.Name) or (isinstance(n.target, ast.Tuple) and all(
+                    isinstance(t, ast.Name) for t in n.target.elts))):
             ents = self.entries(it)
-            if ents is not None and len(ents) <= 12 and all(_is_const(e) for e in ents) and not any(
+            tnames = {n.target.id} if isinstance(n.target, ast.Name) else {t.id for t in n.target.elts}
+            binds = [_bind(n.target, e) for e in ents] if ents is not None else None
+            if ents is not None and len(ents) <= 12 and all(b is not None and all(_is_const(v) for v in b.values()) for b in binds) \
+                    and not any(
                     isinstance(x, (ast.Break, ast.Continue, ast.FunctionDef, ast.Lambda, ast.AsyncFunctionDef))
-                    or (isinstance(x, ast.Name) and x.id == n.target.id and not isinstance(x.ctx, ast.Load))
+                    or (isinstance(x, ast.Name) and x.id in tnames and not isinstance(x.ctx, ast.Load))
                     for s_ in n.body for x in ast.walk(s_)) \
                     and sum(1 for s_ in n.body for x in ast.walk(s_) if isinstance(x, ast.stmt)) * len(ents) <= 60:
                 out = []
-                for e in ents:
+                for b in binds:
                     for s_ in n.body:
-                        out.append(ast.copy_location(_Fold().visit(_Subst({n.target.id: e}).visit(copy.deepcopy(s_))), s_))
+                        out.append(ast.copy_location(_Fold().visit(_Subst(b).visit(copy.deepcopy(s_))), s_))
                 self.count += 1
                 return out
         if n.orelse or not isinstance(it, (ast.Tuple, ast.List)) or not it.elts or len(it.elts) > 6 \
@@ -380,6 +387,9 @@ def unroll(tree):
                     (type(x.iter) is ast.Name and x.iter.id in consts) or (
                         type(x.iter) is ast.Attribute and type(x.iter.value) is ast.Name and x.iter.attr.isupper())):
                 row_loops = True        # a statement loop over a (module- or class-level) table of constants
+            elif type(x.iter) is ast.Call and type(x.iter.func) is ast.Attribute and x.iter.func.attr in ('items', 'keys', 'values') \
+                    and type(x.iter.func.value) is ast.Name and x.iter.func.value.id in consts:
+                row_loops = True        # ... or over the items of a constant dict
         elif t is ast.Subscript or t is ast.Attribute:
             if type(x.ctx) is not ast.Load and type(x.value) is ast.Name:
                 stores[x.value.id] = stores.get(x.value.id, 0) + 2
